@@ -23,7 +23,7 @@ static void alt_compress(uint32_t *s, const unsigned char *blocks, size_t n_bloc
 }
 static int d1, d2;
 static void two_ctx(secp256k1_context *c1, secp256k1_context *c2) {
-    verif_illegal_count = verif_error_count = 0; uf_gen_calls = 0;   /* statics are havocked by --nondet-static */
+    verif_illegal_count = verif_error_count = 0; uf_gen_calls = 0; uf_sha_calls = 0; uf_sha_cap = 1 << 20;   /* statics are havocked by --nondet-static */
     verif_ctx_init(c1); verif_ctx_init(c2);
     c1->illegal_callback.data = &d1; c2->illegal_callback.data = &d2; c1->error_callback.data = &d1; c2->error_callback.data = &d2;
     c2->hash_ctx.fn_sha256_compression = alt_compress;
